@@ -383,6 +383,8 @@ func isIntValue(v ssa.Value) bool {
 	return ok && b.Info()&types.IsInteger != 0
 }
 
+var depthGuard int
+
 // guard returns the constraints that hold on the given edge of a condition (nil: nothing known), and whether the edge is infeasible under the kind assumption.
 func (a *idxAnalysis) guard(cond ssa.Value, edge bool) (cs []lin, dead bool) {
 	for {
@@ -394,6 +396,23 @@ func (a *idxAnalysis) guard(cond ssa.Value, edge bool) (cs []lin, dead bool) {
 	}
 	bo, ok := cond.(*ssa.BinOp)
 	if !ok {
+		// `a || b` / `a && b` as the condition of a switch case: a phi of constants and one computed operand, tested
+		// once. What follows from its truth is the conjunction of the comparisons that follow from it.
+		if _, isPhi := cond.(*ssa.Phi); isPhi && depthGuard < 3 {
+			depthGuard++
+			defer func() { depthGuard-- }()
+			for _, f := range valueConds(cond, edge) {
+				if _, isCmp := f.Cond.(*ssa.BinOp); !isCmp {
+					continue
+				}
+				g, d := a.guard(f.Cond, f.Truth)
+				if d {
+					return nil, true
+				}
+				cs = append(cs, g...)
+			}
+			return cs, false
+		}
 		return nil, false
 	}
 	// the kind parameter against a constant
